@@ -113,7 +113,7 @@ Theorem C03_call_runs_as_its_source_says :
   forall rt mt, bodies_ok rt mt ->                                        (* the body of every routine of the table is covered *)
   forall f args b d, builtin_params f builtin_table = None -> find_rdef rt f = Some d ->
   plain_args mt args (rd_params d) = true ->
-  forall after im ss s sig ss' fuel, routines_loaded rt mt im -> depth_ok (m_frames s) (zlength (m_stack s)) -> sim ss s ->
+  forall after im ss s sig ss' fuel, routines_loaded rt mt im -> sim ss s ->
   code_at im (m_pc s) (c_stmt rt mt false after (SCall f args b)) ->
   Sem.exec rt mt fuel false ss (SCall f args b) = ROk sig ss' ->
   sig = SigNormal /\
